@@ -11,7 +11,33 @@ import (
 	rt "github.com/akalin/gopar/internal/zzverifrt"
 )
 
+// The real directory search (defaultFileIO -> filepath.Glob) on a modelled
+// directory: a base name of 1..3 symbolic bytes over letters, spaces and the
+// glob metacharacters; the recovery file <base>.vol0+1.par2 stored beside the
+// index must be found.
+func VerifHarness_C06_glob() {
+	const dir = "/tmp/zzverif/g"
+	n := 1 + rt.Choice("len", 3)
+	bb := rt.Bytes("base", n)
+	for _, c := range bb {
+		rt.Assume(rt.OneOf(c, "a -[]*?\\"))
+	}
+	base := string(bb)
+	vol := base + ".vol0+1.par2"
+	rt.SetDir(dir, []string{base + ".par2", vol, "other.par2"})
+	got, err := defaultFileIO{}.FindWithPrefixAndSuffix(dir+"/"+base+".", ".par2")
+	rt.Assert(err == nil, "directory search succeeds")
+	found := false
+	for _, g := range got {
+		if g == dir+"/"+vol {
+			found = true
+		}
+	}
+	rt.Assert(found, "the recovery file stored beside the index is found whatever the base name")
+}
+
 func init() {
+	rt.Register("C06_glob", VerifHarness_C06_glob)
 	rt.Register("C06_layouts", VerifHarness_C06_layouts)
 	rt.Register("C06_volume_names", VerifHarness_C06_volume_names)
 }
